@@ -1,15 +1,158 @@
 /-
-  HotXL.Model.Fn.Eng — builtin functions of this family (filled in as the family is modelled).
-  `table` maps a registered function name to its model; a registered name with no entry
-  here is reported by the evaluator as `Value.other "unmodelled-builtin"`.
+  HotXL.Model.Fn.Eng — model of hotxlfp/formulas/engineering.py:
+    HEX2DEC DEC2HEX COMPLEX IMREAL IMAGINARY DELTA
+
+  A Python `complex` has no constructor of its own in `Value`; it is modelled as the tagged list
+  `.arr [.other "complex", .num (.flt re), .num (.flt im)]` (both parts are floats, by exact
+  value).  A real Python list of that shape would be a list whose first item is a complex
+  number — nothing in hotxlfp builds one.
+  The complex-text parser covers `a`, `bi`, `a±bi`, `i`, `±i`, `a±i` with plain decimal numbers
+  (no exponent, `inf`, `nan`, parentheses); other texts are treated as unparseable (`#NUM!`).
 -/
 import HotXL.Model.Fn.Common
+import HotXL.Model.Fn.Round
+import HotXL.Generated.Round
 
 namespace HotXL.Fn.Eng
-open HotXL
+open HotXL HotXL.Ops HotXL.Fn HotXL.Fn.Round
 
-open HotXL.Fn
+/-- digit alphabet of `hex(n)[2:].upper()` (Python builtin behaviour) -/
+def hexAlphabet : List Char := "0123456789ABCDEF".toList
 
-def table : List (String × Builtin) := []
+/-- `hex(n)[2:].upper()` for `n ≥ 0` -/
+def hexText (n : Nat) : List Char :=
+  if n = 0 then ['0'] else (baseDigits 16 n).reverse.map (fun d => hexAlphabet.getD d '?')
+
+/-- HEX2DEC(hex): `int(hex, 16)` needs a string (anything else: TypeError) -/
+def HEX2DEC : Builtin
+  | [.str s] =>
+    match pyIntBase? s Generated.hex2decBase with
+    | none => .ok (.err .value)
+    | some dec =>
+      if dec < Generated.hex2decZero || Generated.hex2decLimit ≤ dec then .ok (.err .num)
+      else .ok (.num (.int (if Generated.hex2decHalf ≤ dec then dec - Generated.hex2decWrap else dec)))
+  | _ => .error .error
+
+def dec2hexCore (d : Value) (places : Option Value) : Except Err Value :=
+  match parseNumber d with
+  | .error e => .ok (.err e)
+  | .ok dec =>
+    let pl : Except Err (Option Num) :=
+      match places with
+      | none => .ok none
+      | some p => (parseNumber p).map some
+    match pl with
+    | .error e => .ok (.err e)
+    | .ok pl =>
+      if negPlaces pl then .ok (.err .num) else
+      let q := Num.toRat dec
+      if q < (Generated.dec2hexLow : Rat) || (Generated.dec2hexHigh : Rat) ≤ q then .ok (.err .num) else
+      match dec with
+      | .flt _ => .error .error            -- TypeError: hex() of a float
+      | .int i =>
+        let pl := if i < 0 then none else pl
+        let n := if i < 0 then i + Generated.dec2hexWrap else i
+        let result := hexText n.toNat
+        match pl with
+        | none => .ok (.str result)
+        | some p =>
+          if Num.toRat p < (result.length : Rat) then .ok (.err .num) else
+          match p with
+          | .int w => .ok (.str (rjustZero result w.toNat))
+          | .flt _ => .error .error        -- TypeError in str.rjust
+
+/-- DEC2HEX(dec, places=DEFAULT) -/
+def DEC2HEX : Builtin
+  | [d] => dec2hexCore d none
+  | [d, p] => dec2hexCore d (some p)
+  | _ => .error .error
+
+/-! ### complex numbers -/
+
+def mkComplex (re im : Rat) : Value := .arr [.other "complex", .num (.flt re), .num (.flt im)]
+
+/-- COMPLEX(real, imaginary) -/
+def COMPLEX : Builtin
+  | [a, b] =>
+    match parseNumber a, parseNumber b with
+    | .ok x, .ok y => .ok (mkComplex (Num.toRat x) (Num.toRat y))
+    | _, _ => .ok (.err .value)
+  | _ => .error .error
+
+/-- index of the last `+`/`-` that is not the first character -/
+def lastSignPos (s : List Char) : Option Nat :=
+  let rec go : List Char → Nat → Option Nat → Option Nat
+    | [], _, best => best
+    | c :: r, i, best => go r (i + 1) (if (c = '+' || c = '-') && i ≠ 0 then some i else best)
+  go s 0 none
+
+/-- the imaginary coefficient text (`""`, `"+"`, `"-"`, or a number) -/
+def imagCoeff? (s : List Char) : Option Rat :=
+  match s with
+  | [] => some 1
+  | ['+'] => some 1
+  | ['-'] => some (-1)
+  | _ => pyFloat? s
+
+/-- `complex(text)` on the modelled fragment (after `i`→`j`, blanks removed) -/
+def complexOfText (s : List Char) : Option (Rat × Rat) :=
+  if s.any PyNum.isPySpace then none else
+  let last := s.getLast?
+  if last = some 'j' || last = some 'J' then
+    let body := s.dropLast
+    match lastSignPos body with
+    | some i =>
+      (match pyFloat? (body.take i), imagCoeff? (body.drop i) with
+       | some re, some im => some (re, im)
+       | _, _ => none)
+    | none => (imagCoeff? body).map (fun im => (0, im))
+  else (pyFloat? s).map (fun re => (re, 0))
+
+inductive Cx where
+  | ok (re im : Rat)
+  | err (e : Err)             -- a returned error value
+  | raise                     -- AttributeError: no `.replace`
+
+/-- `utils.parse_complex` -/
+def parseComplex : Value → Cx
+  | .blank => .ok 0 0
+  | .arr [.other "complex", .num (.flt re), .num (.flt im)] => .ok re im
+  | .err e => .err e
+  | .str s =>
+    let t := (s.map (fun c => if c = 'i' then 'j' else c)).filter (fun c => c ≠ ' ')
+    (match complexOfText t with
+     | some (re, im) => .ok re im
+     | none => .err .num)
+  | _ => .raise
+
+/-- IMREAL(compl): `int(compl.real)` -/
+def IMREAL : Builtin
+  | [v] =>
+    match parseComplex v with
+    | .ok re _ => .ok (.num (.int (ratTrunc re)))
+    | .err e => .ok (.err e)
+    | .raise => .error .error
+  | _ => .error .error
+
+/-- IMAGINARY(compl): `int(compl.imag)` -/
+def IMAGINARY : Builtin
+  | [v] =>
+    match parseComplex v with
+    | .ok _ im => .ok (.num (.int (ratTrunc im)))
+    | .err e => .ok (.err e)
+    | .raise => .error .error
+  | _ => .error .error
+
+/-- DELTA(number1, number2) -/
+def DELTA : Builtin
+  | [a, b] =>
+    match parseNumber a, parseNumber b with
+    | .ok x, .ok y => .ok (.num (.int (if Num.toRat x = Num.toRat y then 1 else 0)))
+    | _, _ => .ok (.err .value)
+  | _ => .error .error
+
+def table : List (String × Builtin) :=
+  [("HEX2DEC", HEX2DEC), ("DEC2HEX", DEC2HEX), ("COMPLEX", COMPLEX), ("IMREAL", IMREAL),
+   ("IMAGINARY", IMAGINARY), ("DELTA", DELTA)]
 
 end HotXL.Fn.Eng
